@@ -350,13 +350,14 @@ pub fn run(ctx: &Ctx) -> (Stats, Spec) {
     // about 2^(k+1) nodes. exists z / all z / exists over a middle variable are compared with what
     // the connectives give directly.
     for k in ctx.tier.pick(vec![12usize], vec![10, 12, 13, 14]) {
+        engine_block(&mut st, "C04", "big-operand", |st2| {
         let env: BDDEnv<usize> = BDDEnv::new();
         util::budget(u64::MAX, 1000);
         let (a, z) = (0usize, 1000usize);
         let big = (1..=k).fold(env.mk_const(false), |acc, i| env.or(acc, env.and(env.var(i), env.var(100 + i))));
         let f = env.ite(env.var(a), env.var(z), Rc::clone(&big));
         let case = json!({"kind": "big-operand", "k": k});
-        st.evals += 1;
+        st2.evals += 1;
         let checks: Vec<(&str, D, D)> = vec![
             ("exists z", env.exists(vec![z], Rc::clone(&f)), env.or(env.var(a), Rc::clone(&big))),
             ("all z", env.all(vec![z], Rc::clone(&f)), env.and(env.not(env.var(a)), Rc::clone(&big))),
@@ -366,15 +367,16 @@ pub fn run(ctx: &Ctx) -> (Stats, Spec) {
         ];
         for (what, got, want) in checks {
             if got.as_ref() != want.as_ref() {
-                st.violate("c04.semantics", format!("C04:big-operand:{}", what.split(' ').next().unwrap_or("")), format!("f = if a then z else (x1 & y1 | .. | x{} & y{}) ({} table entries): `{}` of f is not what the connectives give directly; the result still tests {:?}", k, k, env.size(), what, labels_of(&got).iter().filter(|l| **l == z || **l == a).collect::<Vec<_>>()), case.clone());
+                st2.violate("c04.semantics", format!("C04:big-operand:{}", what.split(' ').next().unwrap_or("")), format!("f = if a then z else (x1 & y1 | .. | x{} & y{}) ({} table entries): `{}` of f is not what the connectives give directly; the result still tests {:?}", k, k, env.size(), what, labels_of(&got).iter().filter(|l| **l == z || **l == a).collect::<Vec<_>>()), case.clone());
             } else {
-                st.bump("quantifications_of_big_operands");
+                st2.bump("quantifications_of_big_operands");
             }
         }
-        st.max("max_operand_nodes", f.node_list().len() as u64);
+        st2.max("max_operand_nodes", f.node_list().len() as u64);
+            });
     }
     // quantifiers in an environment whose table holds millions of entries
-    {
+    engine_block(&mut st, "C04", "huge-table", |st2| {
         let env = huge_env(ctx.tier.pick(2_200_000usize, 17_000_000usize));
         let uni = vec![2usize, 4, 6, 9];
         let vars = vars_of(&uni);
@@ -383,12 +385,12 @@ pub fn run(ctx: &Ctx) -> (Stats, Spec) {
             let t = Tt::from_u64(4, bits);
             let f = (build_in_env(&env, &t, &vars), t);
             for l in lists.iter().step_by(3) {
-                check_quant(&mut st, &env, &uni, &f, l, "huge-table");
+                check_quant(st2, &env, &uni, &f, l, "huge-table");
             }
-            st.bump("quantifications_in_a_huge_table");
+            st2.bump("quantifications_in_a_huge_table");
         }
-        st.max("max_table_size_under_quantifiers", env.size() as u64);
-    }
+        st2.max("max_table_size_under_quantifiers", env.size() as u64);
+    });
     // one environment in which kept functions are quantified again exactly 65 536 (256) operations later
     let parts = util::par_jobs(2, |job| super::c13::periodic_revisit_job(ctx, "C04", if job == 0 { 65_536 } else { 256 }, if job == 0 { 3 } else { 30 }));
     st.merge(crate::report::merge_all(parts));
